@@ -264,6 +264,14 @@ def run(ctx):
         m, _ = updenc.encode(c)
         if len(m) <= 4096:
             upd_pool.append(m)
+    # UPDATEs above 4096 octets as well (a monitored session may use extended messages; BMP itself sets no limit)
+    n_big = 0
+    while n_big < (6 if quick else 40):
+        c, _ = updenc.gen_content(rng, {'four': True, 'ap': []}, 'big')
+        m, _ = updenc.encode(c)
+        if 4096 < len(m) <= 65535:
+            upd_pool.append(m)
+            n_big += 1
     upd_pool.append(c03.hdr(23, 2) + b'\x00\x00\x00\x00')
     cases = []
     meta = []
